@@ -19,10 +19,8 @@ IOV_MAX = 1024
 # Two defects found by this check were repaired in /repo (995ab40: uv__fs_write_all stopped at a
 # window of IOV_MAX empty buffers; fadabd2: io_uring ftruncate length in the wrong sqe field).
 # Their witnesses stay in corpus/C11 as regression cases; a return is a plain violation.
-# open finding (see notes/C11.md): exercised in the normal run once the key is registered in
-# known_findings.json (any status); always reproducible with
-#   bin/check C11 --replay corpus/C11/statx_retry_leak.replay.json
-K_STATX = "ring_statx_eopnotsupp_retry_leaks_statxbuf"
+# A third defect (e5b94ea: ring statx retried on the pool leaked its struct statx) is covered by
+# the fault-injection op "statx95" in corpus/C11/routes_statx.txt; a return is a plain violation.
 WRAPS_BUFS = ["write", "writev", "pwrite64", "read", "readv", "pread64"]
 
 
@@ -428,7 +426,6 @@ def routes_monitor_parsed(case, p):
     if len(ops) != len(p["ops"]):
         return "harness reported %d operations for %d" % (len(p["ops"]), len(ops))
     ring_off = False
-    known = None
     for txt, o in zip(ops, p["ops"]):
         name = o["name"]
         for rt in "SPRX":
@@ -454,7 +451,8 @@ def routes_monitor_parsed(case, p):
                 return "op %d (%s): %s callbacks after the -EOPNOTSUPP completion" % (o["i"], txt, c.get("cb"))
             m = c.get("m", "0,0,0,0").split(",")
             if m[2:] != ["0", "0"]:
-                known = "KNOWN:" + K_STATX
+                return ("op %d (%s): ring statx completed with -EOPNOTSUPP and retried on the pool: %s/%s "
+                        "uv__malloc blocks live after uv_fs_req_cleanup" % (o["i"], txt, m[2], m[3]))
             continue
         routes = "SPX" if ring_off else "SPRX"
         ref = (cell_res(o["X"]), cell_out(o["X"]))
@@ -487,7 +485,7 @@ def routes_monitor_parsed(case, p):
     for rt in ("SPX" if ring_off else "SPRX"):
         if t.get(rt) != t.get("X"):
             return "resulting tree of route %s differs from the POSIX mirror" % rt
-    return known
+    return None
 
 
 # ----------------------------------------------------------------------------
@@ -516,15 +514,6 @@ def run_robust(cmd, cases, shards=8, env=None, keep=lambda l: True):
     for _, e in res:
         extra += e
     return [r for r, _ in res], extra, err or ""
-
-
-def key_registered(key):
-    p = os.path.join(vf.VERIF, "known_findings.json")
-    try:
-        return any(f.get("property") == "C11" and f.get("key") == key
-                   for f in json.load(open(p)).get("findings", []))
-    except (OSError, ValueError):
-        return False
 
 
 def read_corpus(name):
@@ -593,7 +582,7 @@ def main():
     # ---- (ii) routes ----
     trees = os.path.join(chk.scratch.dir, "trees")
     os.makedirs(trees, exist_ok=True)
-    rcs = read_corpus("routes.txt") + (read_corpus("routes_statx.txt") if key_registered(K_STATX) else []) + \
+    rcs = read_corpus("routes.txt") + read_corpus("routes_statx.txt") + \
         routes_cases(chk.rng, 4000 if thorough else 300)
     if replay_case:
         rcs = [replay_case[1]] if replay_case[0].startswith("routes") and replay_case[1] else []
